@@ -126,9 +126,9 @@ inductive Site
   | rpcCliCopyErr
   /-- `RPCServer.Serve`: `go s.ServeConn(conn)` (plugin) -/
   | rpcSrvServeConn
-  /-- `RPCServer.ServeConn`: `go copyStream("stdout", …)` (plugin) -/
+  /-- `RPCServer.ServeConn`: `go copyChanStream("stdout", …)` — this connection's copier, ends with the connection (plugin) -/
   | rpcSrvCopyOut
-  /-- `RPCServer.ServeConn`: `go copyStream("stderr", …)` (plugin) -/
+  /-- `RPCServer.ServeConn`: `go copyChanStream("stderr", …)` (plugin) -/
   | rpcSrvCopyErr
   /-- `RPCServer.ServeConn`: `go broker.Run()` (plugin) -/
   | rpcSrvBrokerRun
@@ -138,6 +138,11 @@ inductive Site
   | serveSignals
   /-- `Serve`: `go server.Serve(listener)` (plugin) -/
   | serveServe
+  /-- `RPCServer.ServeConn`, once per server: `go copyChan(…, s.stdoutCh, s.Stdout)` — the one reader of the plugin's
+  stdout pipe, for the life of the server (plugin) -/
+  | rpcSrvPumpOut
+  /-- the same for stderr (plugin) -/
+  | rpcSrvPumpErr
   deriving DecidableEq, Repr
 
 /-- The number the extractor gives the site (0 is "a `go` statement the model does not know"). -/
@@ -149,13 +154,14 @@ def Site.code : Site → Nat
   | .muxTimeoutWait => 18 | .rpcCliBrokerRun => 19 | .rpcCliCopyOut => 20 | .rpcCliCopyErr => 21
   | .rpcSrvServeConn => 22 | .rpcSrvCopyOut => 23 | .rpcSrvCopyErr => 24 | .rpcSrvBrokerRun => 25
   | .dispenseAccept => 26 | .serveSignals => 27 | .serveServe => 28 | .grpcKnockExpiry => 29
+  | .rpcSrvPumpOut => 30 | .rpcSrvPumpErr => 31
 
 def allSites : List Site :=
   [.cleanupKill, .startLogStderr, .startWait, .startScan, .startDrain, .reattachWait, .brokerSrvSend,
    .brokerCliSend, .grpcKnocks, .grpcTimeoutWait, .grpcCliBrokerRun, .grpcCliStartStream, .grpcCliStdio,
    .grpcSrvBrokerRun, .stdioCopyOut, .stdioCopyErr, .muxAcceptSession, .muxTimeoutWait, .rpcCliBrokerRun,
    .rpcCliCopyOut, .rpcCliCopyErr, .rpcSrvServeConn, .rpcSrvCopyOut, .rpcSrvCopyErr, .rpcSrvBrokerRun,
-   .dispenseAccept, .serveSignals, .serveServe, .grpcKnockExpiry]
+   .dispenseAccept, .serveSignals, .serveServe, .grpcKnockExpiry, .rpcSrvPumpOut, .rpcSrvPumpErr]
 
 /-- The sorted list of site numbers the model accounts for: what the extractor must find. -/
 def knownSites : List Nat := allSites.map Site.code
